@@ -160,18 +160,20 @@ theorem applySlice_eq {h : Heap α} {a src : Arr} (g : Geo a.v) (ok : ArrOK h a)
   have hvl : vals.length = (rowMajor src.v.dims).length := OW.NdC02.getAll_length hv
   have hloop : copyLoop h (dstSlice a loc src.v.dims step) src src.v.dims =
       .ok (writeList h a.sid (seqWrites (dstSlice a loc src.v.dims step) ((rowMajor src.v.dims).zip vals))) := by
-    rw [copyLoop_eq gs hsid oks rfl hv]
+    rw [copyLoop_eq (dst := dstSlice a loc src.v.dims step) gs hsid oks rfl hv]
     apply setSeq_eq gS _ h okSl
     intro w hw
     exact OW.NdC02.rowMajor_inBounds gs.pos_dims _ (List.of_mem_zip hw).1
+  have hslice : slice a loc src.v.dims step = .ok (dstSlice a loc src.v.dims step) := by
+    simp only [slice, hsl, bind, Except.bind, pure, Except.pure, dstSlice]
   unfold applySlice
-  simp only [slice, hsl, bind, Except.bind, pure, Except.pure]
+  simp only [hslice, bind, Except.bind, pure, Except.pure]
   by_cases hC : a.isC = true
   · simp only [hC, if_true]
     exact hloop
   · simp only [hC, Bool.false_eq_true, if_false]
     obtain ⟨c, hc⟩ := (OW.NdC02.contiguous_iff_geo gS).2
-    rw [show (sliceView a.v loc src.v.dims step).contiguous = .ok c from hc]
+    rw [hc]
     cases c with
     | false => simp only [Bool.false_eq_true, if_false]; exact hloop
     | true =>
@@ -181,7 +183,7 @@ theorem applySlice_eq {h : Heap α} {a src : Arr} (g : Geo a.v) (ok : ArrOK h a)
         | true => exact absurd h' hC
         | false => rfl
       have hu := OW.NdC02.unroll_contig gS okSl hgo hc
-      rw [show unroll h { a with v := sliceView a.v loc src.v.dims step } = _ from hu]
+      rw [hu]
       simp only []
       -- the source values
       have hsv : ∃ s, unroll h src = .ok s ∧ sliceVals h s = .ok vals := by
@@ -208,15 +210,13 @@ theorem applySlice_eq {h : Heap α} {a src : Arr} (g : Geo a.v) (ok : ArrOK h a)
       have hp := product_pos gs.pos_dims
       have hsz : (dstSlice a loc src.v.dims step).v.size.toNat = vals.length := by
         rw [hvl, OW.NdC02.rowMajor_length]; rfl
-      rw [show (sliceView a.v loc src.v.dims step).size = (dstSlice a loc src.v.dims step).v.size from rfl,
-        hsz, List.take_length]
+      rw [hsz, List.take_length]
       have := consec_eq_seqWrites gS ok.base_nonneg hc vals.length 0 vals rfl (by
         rw [hvl, OW.NdC02.rowMajor_length]
         show (((0 + (product src.v.dims).toNat : Nat)) : Int) ≤ product src.v.dims
         omega)
       rw [Nat.add_zero] at this
-      rw [show (a.base + (sliceView a.v loc src.v.dims step).start) =
-        ((dstSlice a loc src.v.dims step).base + (dstSlice a loc src.v.dims step).v.start) from rfl, this]
+      rw [this]
       congr 2
       unfold rowMajor
       rw [hvl, OW.NdC02.rowMajor_length]
